@@ -420,6 +420,49 @@ func (e *Engine) havocItem(st *State, env *SpecEnv, item string) {
 	case item == "big":
 		st.havocKey("BigVal")
 		return
+	case strings.HasPrefix(item, "* except "):
+		// everything on the Go heap except the fields of objects of one named struct type (pkg.Type)
+		tn := strings.TrimSpace(strings.TrimPrefix(item, "* except "))
+		i := strings.LastIndex(tn, ".")
+		if i < 0 {
+			unsupp("modifies * except pkg.Type")
+		}
+		T := e.lookupType(tn[:i], tn[i+1:], nil)
+		if T == nil {
+			unsupp("modifies * except %s: type not found", tn)
+		}
+		prefix := "F:" + typeKey(T) + "."
+		keepH := map[string]*Term{}
+		keepV := map[string]int{}
+		for k, v := range st.heap {
+			if strings.HasPrefix(k, prefix) {
+				keepH[k] = v
+			}
+		}
+		for k, v := range st.hv {
+			if strings.HasPrefix(k, prefix) {
+				keepV[k] = v
+			}
+		}
+		// fields of that type not read yet on this path must keep their pre-call symbol as well: touch them first
+		for _, l := range leaves(T) {
+			k := fieldKey(T, l.path)
+			if _, ok := keepH[k]; !ok {
+				noteLeaf(k, l)
+				keepH[k] = st.heapGet(k, arrSort(SInt, l.sort))
+				if id, ok := st.hv[k]; ok {
+					keepV[k] = id
+				}
+			}
+		}
+		st.havocAll()
+		for k, v := range keepH {
+			st.heap[k] = v
+		}
+		for k, v := range keepV {
+			st.hv[k] = v
+		}
+		return
 	case item == "ghosts":
 		// every declared ghost variable (model-internal G:$... ghosts are left alone)
 		for name := range e.db.Ghosts {
